@@ -118,6 +118,22 @@ func (g *htmlGen) tag(name string, closing, selfClose bool) {
 		}
 		tk.Attrs = append(tk.Attrs, a)
 	}
+	emptyLast := false
+	if !selfClose && !closing && r.p(8) {
+		// "<p … b=>": an attribute whose value is empty, directly followed by the end of the tag
+		an := "e" + r.pick([]string{"1", "2", "mpty"})
+		if !used[an] {
+			g.emit(g.ws(true))
+			a := gAttr{Name: an}
+			a.NS, a.NE = g.emit(an)
+			g.emit("=")
+			v := ""
+			a.Value = &v
+			a.VS, a.VE = len(g.out), len(g.out)
+			tk.Attrs = append(tk.Attrs, a)
+			emptyLast = true
+		}
+	}
 	if selfClose {
 		// "<name/>" when nothing else was printed, otherwise " />": the slash becomes part of the name / a new attribute
 		if len(tk.Attrs) == 0 && r.p(50) {
@@ -134,7 +150,9 @@ func (g *htmlGen) tag(name string, closing, selfClose bool) {
 		if last >= 0 && tk.Attrs[last].Value != nil && !strings.HasPrefix(*tk.Attrs[last].Value, "\"") && !strings.HasPrefix(*tk.Attrs[last].Value, "'") && strings.HasSuffix(*tk.Attrs[last].Value, "/") {
 			g.emit(" ") // keep an unquoted value ending in '/' from being read as self-closing… it is part of the value anyway
 		}
-		g.emit(g.ws(false))
+		if !emptyLast {
+			g.emit(g.ws(false))
+		}
 	}
 	g.emit(">")
 	tk.S, tk.E = st, len(g.out)
